@@ -85,15 +85,16 @@ class Builder:
         self.memo = {}
         self.tokens = {}
 
-    def callback(self, cb):
+    def callback(self, cb, recv=None):
         ghost, rec = self.ghost, self.rec
         eff = cb.effect
+        pre = (recv,) if getattr(cb, 'with_self', False) and recv is not None else ()
 
         def call(*args, **kw):
             if eff is None:
                 return None
             try:
-                return eff(ghost, *args, **kw)
+                return eff(ghost, *pre, *args, **kw)
             except AssertionError as e:
                 tb = traceback.extract_tb(e.__traceback__)[-1]
                 rec.violations.append(f'ghost assertion of {cb.name} failed at {tb.name}:{tb.lineno}: {tb.line}')
@@ -127,7 +128,7 @@ class Builder:
             r = bytearray(self.build(d['__bytearray__']))
         elif '__list__' in d:
             items = [self.build(x) for x in d['__list__']]
-            r = collections.deque(items) if d.get('flavor') == 'deque' else items
+            r = collections.deque(items, maxlen=d.get('maxlen')) if d.get('flavor') == 'deque' else items
         elif '__dict__' in d:
             r = {self.build(k): self.build(v) for k, v in d['__dict__']}
         elif '__map__' in d:
@@ -191,7 +192,7 @@ class Builder:
         if mdl is not None:
             for mname, m in mdl.methods.items():
                 if isinstance(m, C.Callback):
-                    object.__setattr__(obj, mname, self.callback(m))
+                    object.__setattr__(obj, mname, self.callback(m, recv=obj))
         return obj
 
     def build_map(self, m, ft):
@@ -306,10 +307,15 @@ def run_native(top, registry, state, extra_check=None):
     if getattr(top, 'native_setup', None):
         top.native_setup(env)
         params = {n: env[n] for n in params}
+    _teardown = (getattr(top, 'extra', {}) or {}).get('native_teardown')
     try:
         if top.requires is not None and not all(flatten(call_clause(top.requires, env))):
+            if _teardown:
+                _teardown(env)
             return {'outcome': 'precondition-false'}
     except Exception as e:
+        if _teardown:
+            _teardown(env)
         return {'outcome': 'error', 'detail': f'requires: {e!r}'}
     # entry by entry: an object that cannot be deep-copied (pyee emitters) must not make `old.ghost` alias the live ghost
     old = types.SimpleNamespace(**{k: snapshot(v) for k, v in env.items()})
@@ -320,7 +326,7 @@ def run_native(top, registry, state, extra_check=None):
     patches = []
     for u in getattr(top, 'uses', []):
         c2 = registry.contracts.get(u)
-        if c2 is None or c2.requires is None or '<locals>' in c2.target:
+        if c2 is None or (c2.requires is None and not c2.extra.get('native_monitor')) or '<locals>' in c2.target:
             continue
         try:
             modname, qn = c2.target.split(':')
@@ -336,19 +342,57 @@ def run_native(top, registry, state, extra_check=None):
             sig = inspect.signature(orig)
             short = c2.key.split(':')[1]
 
-            def wrapper(*a, **k):
+            # contract kwarg `native_monitor=fn(ghost, args: dict, result, exc)`: ghost bookkeeping of a callee view
+            # (counters of the call's outcome) carried out natively after the real callee ran
+            mon = c2.extra.get('native_monitor')
+
+            def pre(a, k):
+                e = {}
                 try:
                     ba = sig.bind(*a, **k)
                     ba.apply_defaults()
                     e = dict(ba.arguments)
                     e['ghost'] = ghost
-                    vals = flatten(call_clause(c2.requires, e))
-                    for i, ok in enumerate(vals):
-                        if not ok:
-                            rec.violations.append(f'callee-pre#{short}#{i}')
+                    if c2.requires is not None:
+                        vals = flatten(call_clause(c2.requires, e))
+                        for i, ok in enumerate(vals):
+                            if not ok:
+                                rec.violations.append(f'callee-pre#{short}#{i}')
                 except Exception as ex:  # noqa: BLE001
                     rec.violations.append(f'monitor-error {short}: {ex!r}')
-                return orig(*a, **k)
+                return e
+
+            def post(e, result, exc_):
+                if mon is None:
+                    return
+                try:
+                    mon(ghost, e, result, exc_)
+                except Exception as ex:  # noqa: BLE001
+                    rec.violations.append(f'monitor-error {short}: {ex!r}')
+
+            if inspect.iscoroutinefunction(orig):
+
+                async def awrapper(*a, **k):
+                    e = pre(a, k)
+                    try:
+                        r = await orig(*a, **k)
+                    except Exception as ex:  # noqa: BLE001
+                        post(e, None, ex)
+                        raise
+                    post(e, r, None)
+                    return r
+
+                return awrapper
+
+            def wrapper(*a, **k):
+                e = pre(a, k)
+                try:
+                    r = orig(*a, **k)
+                except Exception as ex:  # noqa: BLE001
+                    post(e, None, ex)
+                    raise
+                post(e, r, None)
+                return r
 
             return wrapper
 
@@ -388,6 +432,11 @@ def run_native(top, registry, state, extra_check=None):
             res = fn(**args)
         else:
             fn = resolve(top.target)
+            if (getattr(top, 'extra', {}) or {}).get('decorators_ok') and hasattr(fn, '__wrapped__'):
+                # the contract ignores the decorator (decorators_ok): replay the undecorated function
+                fn = fn.__wrapped__
+            if isinstance(fn, property):
+                fn = fn.fset  # the contract of a property is the contract of its setter (the last definition, see source.find_def)
             kwargs = dict(params)
             if 'self' in kwargs:
                 selfv = kwargs.pop('self')
@@ -424,6 +473,8 @@ def run_native(top, registry, state, extra_check=None):
             exc = e
     except Exception as e:  # noqa: BLE001
         exc = e
+    except asyncio.CancelledError as e:  # a BaseException: a stub may cancel the function under contract
+        exc = e
     finally:
         try:
             signal.setitimer(signal.ITIMER_REAL, 0)
@@ -431,6 +482,9 @@ def run_native(top, registry, state, extra_check=None):
             pass
         for owner, attr, orig in patches:
             setattr(owner, attr, orig)
+        teardown = (getattr(top, 'extra', {}) or {}).get('native_teardown')
+        if teardown:
+            teardown(env)  # undo what native_setup installed outside the objects of this replay (e.g. a patched class attribute)
     if isinstance(exc, RuntimeError) and 'no running event loop' in str(exc):
         return {'outcome': 'error', 'detail': 'the function needs a running asyncio loop (task-spawning decorator): not runnable by the native harness'}
     if type(exc).__name__ == 'ReplayTimeout':
@@ -549,7 +603,7 @@ def _leaves(d, path=()):
         yield path, d
     elif isinstance(d, dict):
         for k, v in d.items():
-            if k in ('__obj__', 'flavor'):
+            if k in ('__obj__', 'flavor', 'maxlen'):
                 continue
             yield from _leaves(v, path + (k,))
     elif isinstance(d, (list, tuple)):
